@@ -150,7 +150,8 @@ def state_alphabet(fam, with_sims):
 def perturbations(v):
     t = v[0]
     if t == "q":
-        return [["q", v[1] * 2 if v[1] else 1.0, v[2]], ["q", v[1] * 0.5 if v[1] else 2.0, v[2]]]
+        return [["q", v[1] * 2 if v[1] else 1.0, v[2]], ["q", v[1] * 0.5 if v[1] else 2.0, v[2]],
+                ["q", v[1] * 4.5 if v[1] else 7.0, v[2]], ["q", v[1] * 0.2 if v[1] else 0.3, v[2]]]
     if t == "h":
         return [["h", [x + 1.0 for x in v[1]], v[2], v[3]]]
     if t == "tz":
